@@ -179,3 +179,43 @@ def timer_start_expired(timeout: int, m0: int, m1: int, w0: int, w1: int) -> boo
         return t.expired == ((m1 - m0) > timeout)
     finally:
         timer_mod.time = saved
+
+
+# ---------------------------------------------------------------------------------------------
+# The ARTIM timer as the provider uses it: the reactor must notice the expiry (Evt18) from elapsed monotonic
+# time alone - whatever the wall clock reads while it polls.
+from harness import C05 as _c05  # noqa: E402  (single-thread reactor environment of C05)
+
+
+@harness(
+    "C09",
+    timeout=(90, 300),
+    shards=[{"start": s} for s in (0, 9, 10)],
+    functions=["dul:DULServiceProvider.run_reactor", "timer:Timer.expired", "fsm:AA_2"],
+    bounds="provider in Sta2 (acceptor) / Sta13 (either role) with ARTIM running; the monotonic clock passes the ARTIM "
+           "deadline; every wall-clock reading (time.time) the reactor takes while polling is any int (solver-symbolic, "
+           "up to 8 readings, unconstrained: the system clock may be stepped either way): the reactor processes Evt18, "
+           "closes the transport and returns to Sta1",
+    stubs=_c05.R.STUBS + ["time.time inside pynetdicom.dul / pynetdicom.timer returns the symbolic wall readings, "
+                          "time.monotonic the tick clock"],
+    outside="float clocks; more wall readings than the bound (further readings return the last one)",
+)
+def artim_expiry_in_reactor(wall: List[int]) -> bool:
+    """
+    pre: len(wall) <= 8
+    pre: all(-BIG <= w <= BIG for w in wall)
+    post: _ == True
+    """
+    r = _c05.Run(shard("start", 0), [_c05.A_T, _c05.A_IDLE])
+    state = {"i": 0}
+
+    def wall_time():
+        i = state["i"]
+        state["i"] = i + 1
+        if i < len(wall):
+            return wall[i]
+        return wall[len(wall) - 1] if len(wall) > 0 else 0
+
+    r.clock.time = wall_time
+    out = r.run()
+    return out == "ok" and r.p.state == "Sta1" and r.p.transport_closed
